@@ -191,7 +191,8 @@ def render_consts():
     if not m:
         raise core.InfraError("translator: STD_LOGIC_LUT not found")
     lut = [int(x) for x in m.group(1).split(",")]
-    marks = [(n, byte_const(ghwc, "GHW_%s_SECTION" % n)) for n in ("SNAPSHOT", "END_SNAPSHOT", "CYCLE", "END_CYCLE", "DIRECTORY", "END_DIRECTORY", "TAILER")]
+    marks = [(n, byte_const(ghwc, "GHW_%s_SECTION" % n)) for n in ("SNAPSHOT", "END_SNAPSHOT", "CYCLE", "END_CYCLE", "DIRECTORY", "END_DIRECTORY", "TAILER",
+                                                                      "STRING", "TYPE", "WK_TYPE", "HIERARCHY", "END_OF_HEADER")]
 
     def first_chars(result):
         m = re.search(r"fn parse_first_token\(.*?\n\}", vcd, re.S)
@@ -230,6 +231,20 @@ def render_consts():
     extra += "Definition fst_var_tab : list (N * N) := %s.\n" % pairs_of(match_table(fst, "convert_var_tpe", "FstVarType", d_var, "VarType", var_variants))
     extra += "Definition fst_dir_tab : list (N * N) := %s.\n" % pairs_of(match_table(fst, "convert_var_direction", "FstVarDirection", d_dir, "VarDirection", enum_variants(hier, "VarDirection")))
     extra += "Definition fst_vhdl_merge_tab : list (N * N) := %s.\n" % pairs_of(match_table(fst, "merge_vhdl_data_and_var_type", "FstVhdlDataType", d_vhdl, "VarType", var_variants))
+    def bytes_array(name, n):
+        m = re.search(r"pub const %s: \[u8; %d\] = \[(.*?)\];" % (name, n), ghwc, re.S)
+        if not m:
+            raise core.InfraError("translator: %s not found" % name)
+        vals = re.findall(r"b'(.)'", m.group(1))
+        if len(vals) != n:
+            raise core.InfraError("translator: %s has %d entries" % (name, len(vals)))
+        return [ord(c) for c in vals]
+    extra += "Definition ghw_std_logic_values : list N := %s.\nDefinition ghw_vhdl_bit_values : list N := %s.\n" % (
+        nl(bytes_array("STD_LOGIC_VALUES", 9)), nl(bytes_array("VHDL_BIT_VALUES", 2)))
+    extra += "\n(* wellen/src/hierarchy.rs: discriminants of ScopeType, VarType and VarDirection, by name *)\n"
+    for en in ("ScopeType", "VarType", "VarDirection"):
+        for k, var in enumerate(enum_variants(hier, en)):
+            extra += "Definition %s_%s : N := %d.\n" % (en, var, k)
     m = re.search(r"let signal_tpe = match tpe \{(.*?)\};", fst, re.S)
     if not m:
         raise core.InfraError("translator: signal_tpe match of read_hierarchy not found")
